@@ -609,6 +609,15 @@ type Case struct {
 func SendCase[T any](c chan<- T, v T) Case { return Case{c: selCase{send: true, val: v}, raw: c} }
 func RecvCase[T any](c <-chan T) Case      { return Case{c: selCase{}, raw: c} }
 
+// RecvVal converts the value received by Select to the element type of c.
+func RecvVal[T any](c <-chan T, v any) T {
+	if v == nil {
+		var z T
+		return z
+	}
+	return v.(T)
+}
+
 // Select returns the index of the chosen case (-1 = default), and for a receive
 // the value and ok.
 func Select(hasDefault bool, cases ...Case) (int, any, bool) {
